@@ -395,15 +395,21 @@ class BioConsert(RankAggAlgorithm, PairwiseBasedAlgorithm):
             cpt += n
 
     def _departure_rankings(self, dataset: Dataset, scoring_scheme: ScoringScheme, unify: bool = True,
-                            all_tied_as_well: bool = True) -> ndarray:
+                            all_tied_as_well: bool = True, mapping_elem_id: Dict[Element, int] = None) -> ndarray:
         """
 
         :param dataset: the dataset to consider
         :param scoring_scheme: the scoring scheme to consider
         :param unify: should the rankings be unified
         :param all_tied_as_well: should the ranking with all elements tied should be considered
+        :param mapping_elem_id: the int id of each element, i.e. its column in the result. Default: the ids of dataset
         :return: a 2D ndarray with nb_elements columns, res[i][j] = bucket id of element j in departure ranking i
         """
+
+        # the columns must follow the int ids of the elements in the input dataset (the cost matrix and the decoding
+        # of the result use them), not the ids of a dataset derived from it (unified dataset, dataset of consensus)
+        if mapping_elem_id is None:
+            mapping_elem_id = dataset.mapping_elem_id
 
         if unify and not dataset.is_complete:
             dataset_to_consider = dataset.unified_dataset()
@@ -421,12 +427,18 @@ class BioConsert(RankAggAlgorithm, PairwiseBasedAlgorithm):
             # and do not need to be unified
             rankings_cons = [alg.compute_consensus_rankings(dataset, scoring_scheme, True).consensus_rankings[0]
                              for alg in self._starting_algorithms]
-            return BioConsert()._departure_rankings(Dataset(rankings_cons), scoring_scheme, False, False)
+            return BioConsert()._departure_rankings(Dataset(rankings_cons), scoring_scheme, False, False,
+                                                    mapping_elem_id)
 
         else:
 
             # get for each departure ranking the initial value of kemeny score with the input Dataset
-            bucket_ids: ndarray = dataset_to_consider.get_bucket_ids().transpose()
+            bucket_ids: ndarray = zeros((dataset_to_consider.nb_rankings, dataset_to_consider.nb_elements),
+                                        dtype=np_int32)
+            for id_ranking, ranking in enumerate(dataset_to_consider.rankings):
+                for id_bucket, bucket in enumerate(ranking):
+                    for element in bucket:
+                        bucket_ids[id_ranking][mapping_elem_id[element]] = id_bucket
 
             # to be sure that all the departure rankings are different, use a dct
             distinct_rankings: Set[Tuple[int, ...]] = set()
